@@ -209,8 +209,9 @@ def run(ctx):
     ctx.cov["correspondence"]["threaded_runs"] = nthr
     ctx.cov["correspondence"]["runs_with_tasks_remain_equal_to_model_at_every_handout"] = ntask
     ctx.sample({"threaded_case": {k: cases[0][k] for k in ("kind", "n", "nprocs", "colperm", "ienv", "perturb")}})
-    ctx.cov["partial"] += ["fair termination (every fair run is finite) is not a theorem: proved are no-stuck-state and "
-                           "monotone progress measures (tasks_remain never grows, panels only move UNREADY->CANPIPE->BUSY->DONE)",
+    ctx.cov["partial"] += ["termination is proved up to fairness of the OS scheduler: no stuck state + the work of ANY run is bounded "
+                           "(c04_work_bounded: at most one hand-out and one completion per panel, DONE absorbing); that every worker "
+                           "gets to run (fairness) is the platform's",
                            "pthread creation/join and the OS scheduler are observed (thread counts, watchdog), not modelled"]
     ctx.assumptions += ["one scheduler call is atomic w.r.t. other threads' STATE=DONE stores (each cell read once; monotone)",
                         "sequentially consistent memory; weak fairness of the OS scheduler"]
